@@ -1,29 +1,161 @@
 import Rare.Gen.Access
 /-!
-Lockset discipline over the regenerated access table (C05, data-race part).
+# Lockset discipline over the regenerated access tables (C05, data-race part)
 
-Two accesses to the same field conflict when at least one is a write.  A conflicting pair is
-safe when both go through `sync/atomic`, or both hold the mutex and at least one of them holds it
-exclusively (two shared holders are both readers, hence not conflicting anyway).  Every function of
-the table may run concurrently with every function, itself included (many reader goroutines,
-many workers), except the listed constructors, which run before the object is shared.
+`Rare.Gen.Access` is regenerated from /repo on every run by `harness/extract/access.go` (go/types).
+For every object more than one goroutine can touch it lists every field and every syntactic access with
+the object accessed – the field variable itself (`obj = "var"`) or what a reference-typed field refers
+to (`obj = "ref"`: backing array, map, pointee, closure), reached directly, through a local alias, or
+because the reference leaves the function (`esc ≠ ""`) –, whether it writes, whether it is atomic, the
+mutex held **at the site of the access** (nothing, for a reference that escaped), and the goroutine
+roles of the same function the access is ordered with.
+
+## What `raceFree` says
+
+Two accesses *conflict* when they touch the same location (same field variable, or referents in the
+same region) and at least one writes.  A conflicting pair is *safe* when
+
+* both are atomic (sync/atomic, or methods of a type documented to lock internally), or
+* both hold the same mutex and at least one holds it exclusively, or
+* one of them is ordered with the other's role (`ord`: a `go` statement, or an unbuffered-channel
+  hand-shake after which the other goroutine returns).
+
+Every function of a struct table may run concurrently with every function, itself included (many reader
+goroutines, many workers), except the listed constructors, which run before the object is shared (and
+only up to their first `go` statement).  In a role table (`raceFreeRoles`, the variables of one function
+shared with its goroutine closures) every role is one goroutine, so a role does not race with itself.
+
+## Why this implies data-race freedom in the Go memory model (the form used; not formalised here – but
+## see `Rare.Lockset.HB` in `Proofs/LocksetHB.lean` for the mutex case proved over an abstract trace model)
+
+The Go memory model (go.dev/ref/mem, 2022) defines a data race as two conflicting memory operations, at
+least one non-synchronising, that are not ordered by *happens-before*, the transitive closure of
+program order (*sequenced-before*) and *synchronised-before*.  The edges used here, all from that text:
+
+1. **Mutex.**  "For any sync.Mutex or sync.RWMutex variable l and n < m, call n of l.Unlock() is
+   synchronised before call m of l.Lock() returns"; for RWMutex, a call to RLock returns after the
+   n-th Unlock and the matching RUnlock is synchronised before the (n+1)-th Lock.  Two critical
+   sections of one mutex of which at least one is exclusive cannot overlap, so one section's unlock is
+   synchronised before the other's lock; an access inside the first is sequenced before that unlock,
+   the lock is sequenced before the access inside the second: the accesses are ordered.  (Two shared
+   sections may overlap – hence "at least one exclusive".)
+2. **Atomics.**  "If the effect of an atomic operation A is observed by atomic operation B, then A is
+   synchronised before B"; all atomic operations behave as if executed in some sequentially consistent
+   order, and by definition two atomic operations never form a data race.  A location all of whose
+   accesses are atomic is race-free.  A location accessed atomically by some and plainly by others is
+   safe only if the mutex rule covers the pair – which is what `safePair` asks.
+3. **`go` statement.**  "The go statement that starts a new goroutine is synchronised before the start
+   of the goroutine's execution": what the spawning function did before the `go` statement is ordered
+   before everything the new goroutine does (`ord` of the accesses before the statement names the role).
+4. **Unbuffered channel.**  "A receive from an unbuffered channel is synchronised before the completion
+   of the corresponding send."  When the receiving goroutine does nothing but return after that receive
+   (checked syntactically: a single `case <-ch:` whose body only returns, one send in the body, the
+   channel made without capacity and mentioned nowhere else), everything it ever did is sequenced before
+   the receive, hence ordered before whatever follows the send (`ord` of the accesses after the send).
+   (With a buffered channel the rule is the other way round – the send is synchronised before the
+   receive completes – and gives nothing: the edge disappears from the table.)
+5. **Constructors.**  An object is published by returning a pointer / passing it to a `go` statement /
+   sending it; each of these is (program order +) one of the edges above, so the constructor's writes
+   are ordered before every access through the published reference.
+
+If `raceFree` holds for a table, every pair of conflicting accesses of *listed* sites is ordered by one
+of 1–5 in every execution, so no execution has a data race on those locations – **provided the table
+lists every access**.  That proviso is the trusted part:
+
+## What the extraction does not see
+
+* `unsafe` (e.g. `processLineSync` builds a string header over the line bytes), reflection, cgo
+  (the optional pcre2 matcher), assembly;
+* method values and function values bound earlier (`f := s.M; … f()`): recorded as `esc = "methodvalue"`
+  but not followed; a call through a function-typed field counts as a write to its referent unless the
+  generated `assumedReadOnly` list names it;
+* goroutines started in packages that are not analysed (`spawns` lists the `go` statements of the
+  analysed ones; `followreader`, `dirwalk`, `readahead` have their own);
+* aliasing through more than one level (an element of a guarded slice that is itself a pointer: the
+  pointee is another object; `ObjectPool` hands such pointees over – ownership transfer, not tracked);
+  aliasing through results of calls other than `append`/conversions; two distinct fields sharing one
+  referent unless the configuration puts them into one region; distinct instances of one type (all
+  receivers are taken to be the same object, and a mutex is identified by its field name);
+* calls through a reference-typed field into another component: classified by a syntactic "writes
+  receiver-rooted state" scan when the callee's source is among the analysed packages, taken to write
+  when it is not, and taken to be read-only for the entries of `assumedReadOnly` (that component's
+  contract, e.g. `CompiledKeyBuilder` "can be considered thread-safe");
+* what the receiver of an escaped reference does with it: the escape is recorded as an unlocked *read*
+  of the referent (the least it can do), which flags every escape of a referent that is written under
+  the lock anywhere – the pattern of `seeded/C05-status-unlocked-join` – but not a receiver that writes.
+
+The monitor tables (`aggregation`, `multiterm`, `termrenderers`) carry no locks of their own: these
+objects are only entered from `aggregator.Sample` and from `writeOutput`, both of which the role table
+of `RunAggregationLoop` shows to run under `outputMutex` or after the ticker has ended.  For them
+`monitorOk` checks confinement: no `go` statement, no atomics or mutexes of their own, and no reference
+to their state sent on a channel, handed to a `go` statement or parked in a package-level variable.
 -/
 namespace Rare.Lockset
 open Rare.Gen.Access
 
-def conflict (a b : Acc) : Bool := a.field == b.field && (a.write || b.write)
+instance : Inhabited Acc := ⟨⟨"", "", "", "", false, false, "", "", "", "", [], 0⟩⟩
 
-def safePair (a b : Acc) : Bool :=
-  (a.atomic && b.atomic) ||
-  (!a.atomic && !b.atomic && a.lock != "" && b.lock != "" && (a.lock == "W" || b.lock == "W"))
+/-- Same memory location: the same field variable, or referents in the same region. -/
+def sameLoc (a b : Acc) : Bool :=
+  a.obj == b.obj && (if a.obj == "var" then a.field == b.field else a.region == b.region)
 
+def conflict (a b : Acc) : Bool := sameLoc a b && (a.write || b.write)
+
+/-- Both hold the same mutex, at least one exclusively. -/
+def locked (a b : Acc) : Bool :=
+  a.lock != "" && b.lock != "" && a.mutex == b.mutex && (a.lock == "W" || b.lock == "W")
+
+/-- One access is ordered with the whole role of the other (go statement / terminating hand-shake). -/
+def ordered (a b : Acc) : Bool := a.ord.contains b.fn || b.ord.contains a.fn
+
+def safePair (a b : Acc) : Bool := (a.atomic && b.atomic) || locked a b || ordered a b
+
+/-- Accesses made while the object may be shared. -/
+def shared (constructors : List String) (accs : List Acc) : List Acc :=
+  accs.filter fun a => !constructors.contains a.fn
+
+/-- Struct tables: every function may run concurrently with every function, itself included. -/
 def raceFree (constructors : List String) (accs : List Acc) : Bool :=
-  let shared := accs.filter fun a => !constructors.contains a.fn
-  shared.all fun a => shared.all fun b => !conflict a b || safePair a b
+  let s := shared constructors accs
+  s.all fun a => s.all fun b => !conflict a b || safePair a b
+
+/-- Role tables: each role is one goroutine. -/
+def raceFreeRoles (accs : List Acc) : Bool :=
+  accs.all fun a => accs.all fun b => a.fn == b.fn || !conflict a b || safePair a b
 
 /-- Conflicting pairs that are not safe (for the witness search / replay). -/
 def offenders (constructors : List String) (accs : List Acc) : List (Acc × Acc) :=
-  let shared := accs.filter fun a => !constructors.contains a.fn
-  shared.flatMap fun a => (shared.filter fun b => conflict a b && !safePair a b).map fun b => (a, b)
+  let s := shared constructors accs
+  s.flatMap fun a => (s.filter fun b => conflict a b && !safePair a b).map fun b => (a, b)
+
+def offendersRoles (accs : List Acc) : List (Acc × Acc) :=
+  accs.flatMap fun a => (accs.filter fun b => a.fn != b.fn && conflict a b && !safePair a b).map fun b => (a, b)
+
+/-- A reference to monitor-protected state leaves the monitor. -/
+def leaks (a : Acc) : Bool := a.esc == "send" || a.esc == "go" || a.esc == "global" || a.esc == "addr" || a.esc == "methodvalue"
+
+/-- Monitor tables: no synchronisation of their own, nothing leaks. -/
+def monitorOk (accs : List Acc) : Bool := accs.all fun a => !leaks a && !a.atomic && a.lock == ""
+
+def monitorOffenders (accs : List Acc) : List Acc := accs.filter fun a => leaks a || a.atomic || a.lock != ""
+
+/-- The discipline a location follows (documentation / driver output). -/
+def disciplineOf (constructors : List String) (accs : List Acc) (field obj : String) : String :=
+  let s := (shared constructors accs).filter fun a => a.field == field && a.obj == obj
+  if s.isEmpty then "unshared"
+  else if s.all (fun a => !a.write) then "immutable"
+  else if s.all (·.atomic) then "atomic"
+  else if s.all (fun a => a.lock != "") then "guarded:" ++ (s.headD default).mutex
+  else "mixed"
+
+/-- "Every referent access to a guarded field's contents holds the guard, or is atomic, or is ordered with
+    every writer's role, or nobody writes the referent after construction." -/
+def referentGuarded (constructors : List String) (accs : List Acc) : Bool :=
+  let s := shared constructors accs
+  s.all fun a => a.obj != "ref" || a.lock != "" || a.atomic ||
+    s.all fun b => !(b.obj == "ref" && b.region == a.region && b.write) || ordered a b
+
+def showAcc (a : Acc) : String :=
+  s!"{a.fn}:{a.line}:{a.field}/{a.obj}:{if a.write then "write" else "read"}:{if a.atomic then "atomic" else "plain"}:lock={if a.lock == "" then "none" else a.lock ++ "@" ++ a.mutex}:{a.how}"
 
 end Rare.Lockset
